@@ -26,7 +26,7 @@ def run(tier, seed):
     rng.shuffle(ex)
     groups = []     # list of file-item lists (2 or 3 files) + predef
     for e in ex[: (2000 if quick else len(ex))]:
-        groups.append(([[dict(i) for i in e["a"]], [dict(i) for i in e["b"]]], [], "pair"))
+        groups.append(([[dict(i) for i in e["a"]], [dict(i) for i in e["b"]]], [], "pair", {}))
     for i in range(1200 if quick else 15000):
         u = gen.U()
         n = 3 if rng.random() < 0.25 else 2
@@ -40,11 +40,21 @@ def run(tier, seed):
             fs[-1] += [pp.use("PF", [[]]), pp.nl()]
         if rng.random() < 0.15:
             fs[rng.randrange(n)].insert(0, pp.undefall())
-        groups.append((fs, predef, "seeded"))
+        extra = {}
+        if rng.random() < 0.35:
+            # definitions and undefinitions made inside an included file are part of the table, too
+            inc = [pp.define("B", [("q", None)], [pp.bt("id", "q"), pp.bt("lit", "iq")]), pp.nl(), pp.undef(rng.choice(["A", "C"])), pp.nl(),
+                   pp.ifdef("A"), pp.define("C", None, [pp.bt("lit", "ic")]), pp.nl(), pp.endif(), pp.nl()]
+            if rng.random() < 0.3:
+                inc.insert(0, pp.undefall())
+            extra["inc.svh"] = gen.finish_file(inc)
+            k = rng.randrange(n)
+            fs[k] = fs[k] + [pp.nl(), pp.inc("inc.svh"), pp.nl()]
+        groups.append((fs, predef, "seeded", extra))
     cases = []
     meta = []
     nid = 0
-    for (fs, predef, kind) in groups:
+    for (fs, predef, kind, extra) in groups:
         fs = [gen.finish_file(f) for f in fs]
         # sequential: f1, then f2 with f1's table, ...; and the concatenation
         nid += 1
@@ -55,6 +65,8 @@ def run(tier, seed):
         for f in fs:
             cat += copy.deepcopy(f)
         files["cat.sv"] = cat
+        for en, ei in extra.items():
+            files[en] = copy.deepcopy(ei)
         cases.append({"id": nid, "files": files, "top": "f0.sv", "predef": predef, "n": len(fs)})
         meta.append(kind)
     vlib.log("C11: %d groups" % len(cases))
